@@ -61,6 +61,10 @@ class GetKey:
     def pack(self) -> bytes:
         # Strictly speaking it is only 4 bytes but NDR64 needs 8 byte alignment
         # on the field after.
+        for idx in [self.l0_key_id, self.l1_key_id, self.l2_key_id]:
+            if idx < -(2**31) or idx >= 2**31:
+                raise ValueError(f"Group key index {idx} does not fit in a signed 32-bit integer")
+
         target_sd_len = len(self.target_sd).to_bytes(8, byteorder="little")
         if self.root_key_id:
             b_root_key = b"\x00\x00\x02\x00\x00\x00\x00\x00" + self.root_key_id.bytes_le
@@ -780,6 +784,10 @@ def compute_kdf_context(
     l1: int,
     l2: int,
 ) -> bytes:
+    for idx in [l0, l1, l2]:
+        if idx < -(2**31) or idx >= 2**31:
+            raise ValueError(f"Group key index {idx} does not fit in a signed 32-bit integer")
+
     return b"".join(
         [
             key_guid.bytes_le,
